@@ -61,22 +61,22 @@ theorem chain_fin (r : Int) (hr : r.natAbs ≤ 2 ^ 49) (s o : Nat) (S O : ℚ) (
   have := chain_bound r S O q1 q2 q3 q4 hrq hS hS' hO n1 n2 n3 n4
   exact round_fin _ q4 r f4 this (by omega)
 
-/-- decidable side condition on a (scale, offset) pair (bit patterns): a positive normal scale in [1/2, 2^17),
-an offset of magnitude below 2^10, not the unit pair -/
-def pairOK (s o : Nat) : Bool :=
-  decide (o < 2 ^ 64) && !(isUnit s o) &&
+/-- decidable range condition on a (scale, offset) pair (bit patterns): a positive normal scale in [1/2, 2^17),
+an offset of magnitude below 2^10 -/
+def rangeOK (s o : Nat) : Bool :=
+  decide (s < 2 ^ 64) && decide (o < 2 ^ 64) &&
   match decode s, decode o with
   | .fin false m e, .fin _ mo eo =>
     decide (2 ^ 52 ≤ m) && decide (m < 2 ^ 53) && decide (-53 ≤ e) && decide (e ≤ -36) &&
       (mo == 0 || (decide (mo < 2 ^ 53) && decide (eo ≤ -43)))
   | _, _ => false
 
-theorem pairOK_spec (s o : Nat) (h : pairOK s o = true) :
-    ∃ S O : ℚ, IsFin s S ∧ IsFin o O ∧ o < 2 ^ 64 ∧ isUnit s o = false ∧ 1 / 2 ≤ S ∧ S ≤ 2 ^ 17 ∧ |O| ≤ 2 ^ 10 := by
+theorem rangeOK_spec (s o : Nat) (h : rangeOK s o = true) :
+    ∃ S O : ℚ, IsFin s S ∧ IsFin o O ∧ o < 2 ^ 64 ∧ 1 / 2 ≤ S ∧ S ≤ 2 ^ 17 ∧ |O| ≤ 2 ^ 10 := by
   have h2 : (2 : ℚ) ≠ 0 := by norm_num
-  unfold pairOK at h
-  simp only [Bool.and_eq_true, decide_eq_true_eq, Bool.not_eq_true'] at h
-  obtain ⟨⟨ho64, hu⟩, hm⟩ := h
+  unfold rangeOK at h
+  simp only [Bool.and_eq_true, decide_eq_true_eq] at h
+  obtain ⟨⟨_, ho64⟩, hm⟩ := h
   cases hds : decode s with
   | nan => simp [hds] at hm
   | inf _ => simp [hds] at hm
@@ -91,7 +91,7 @@ theorem pairOK_spec (s o : Nat) (h : pairOK s o = true) :
         simp only [hds, hdo, Bool.and_eq_true, decide_eq_true_eq, Bool.or_eq_true, beq_iff_eq] at hm
         obtain ⟨⟨⟨⟨hm1, hm2⟩, he1⟩, he2⟩, hoff⟩ := hm
         refine ⟨Fl.toQ (.fin false m e), Fl.toQ (.fin so mo eo), ⟨false, m, e, hds, rfl⟩, ⟨so, mo, eo, hdo, rfl⟩,
-          ho64, hu, ?_, ?_, ?_⟩
+          ho64, ?_, ?_, ?_⟩
         · rw [toQ_fin]; simp only [sgn, Bool.false_eq_true, if_false, one_mul]
           have hmq : (2 : ℚ) ^ 52 ≤ (m : ℚ) := by exact_mod_cast hm1
           have hp : (2 : ℚ) ^ (-53 : Int) ≤ (2 : ℚ) ^ e := zpow_le_zpow_right₀ (by norm_num) he1
@@ -117,6 +117,16 @@ theorem pairOK_spec (s o : Nat) (h : pairOK s o = true) :
             calc (mo : ℚ) * (2 : ℚ) ^ eo ≤ (2 : ℚ) ^ 53 * (2 : ℚ) ^ (-43 : Int) :=
                   mul_le_mul hmq hp (by positivity) (by positivity)
               _ = 2 ^ 10 := e10
+
+/-- the side condition of the round trip: in range and not the unit pair -/
+def pairOK (s o : Nat) : Bool := rangeOK s o && !(isUnit s o)
+
+theorem pairOK_spec (s o : Nat) (h : pairOK s o = true) :
+    ∃ S O : ℚ, IsFin s S ∧ IsFin o O ∧ o < 2 ^ 64 ∧ isUnit s o = false ∧ 1 / 2 ≤ S ∧ S ≤ 2 ^ 17 ∧ |O| ≤ 2 ^ 10 := by
+  unfold pairOK at h
+  simp only [Bool.and_eq_true, Bool.not_eq_true'] at h
+  obtain ⟨S, O, a, b, c, d, e, f⟩ := rangeOK_spec s o h.1
+  exact ⟨S, O, a, b, c, h.2, d, e, f⟩
 
 /-! ### patterns of the integer types -/
 
@@ -279,5 +289,15 @@ theorem semicircles_roundtrip (s : Nat) (hs : s < 2 ^ 32) : toSemicircles (toDeg
     subst eq
     rw [cvt_int .i32 (by decide) _ r fq (toInt_inRange .i32 s)]
     exact wrap_toInt .i32 s hs
+
+theorem rangeOK_lt (s o : Nat) (h : rangeOK s o = true) : s < 2 ^ 64 ∧ o < 2 ^ 64 := by
+  unfold rangeOK at h
+  simp only [Bool.and_eq_true, decide_eq_true_eq] at h
+  exact h.1
+
+theorem isFin_unique (x : Nat) (q q' : ℚ) (h : IsFin x q) (h' : IsFin x q') : q = q' := by
+  obtain ⟨s, m, e, hd, hv⟩ := h
+  obtain ⟨s', m', e', hd', hv'⟩ := h'
+  rw [hd] at hd'; cases hd'; rw [← hv, ← hv']
 
 end Fit.C12L
